@@ -145,6 +145,16 @@ func init() {
 		}
 		return L(I32(n), I(gn), I32(p), I(gp))
 	}
+	Exec["bitmap.Of/walk"] = func(a []V) string {
+		var bm []uint64
+		if len(a[1].L) > 0 {
+			bm = bitmap.Of(a[0].I32s(), a[1].L[0].I32())
+		} else {
+			bm = bitmap.Of(a[0].I32s())
+		}
+		n := int32(64 * len(bm))
+		return L(I32s(c13IterNext(bm, 0, n)), I32s(c13IterPrev(bm, 0, n)))
+	}
 	Exec["bitmap.Next/count"] = func(a []V) string {
 		bm, tr, i, e := c13Unrle(a[0]), a[1].Bool(), a[2].I32(), a[3].I32()
 		idx := bitmap.IndexRank64(bm, tr)
@@ -607,5 +617,51 @@ func genC13w(g *Gen) {
 			g.Stat("toarray")
 			g.Do("bitmap.Next/ToArray", L(c13Rle(bm)), fmt.Sprintf("TA/sparse/c%d", bits.Len(uint(popcount(bm)))))
 		}
+	}
+
+	// (W6) build with Of, walk with NextOne / PrevOne: dense and sparse ascending position lists,
+	// with and without the size argument (smaller / larger than last+1, negative)
+	for k, no := 0, g.N(200, 4000); k < no; k++ {
+		var ps []int
+		p := g.R.Pick(0, 0, 1, 63, 64, 65, 5000)
+		for c := g.R.Intn(12); c > 0; c-- {
+			ps = append(ps, p)
+			switch g.R.Intn(5) {
+			case 0:
+				p += 1
+			case 1:
+				p += g.R.Range(1, 70)
+			case 2:
+				p = (p/64+1)*64 + g.R.Pick(-1, 0, 63)
+				if len(ps) > 0 && p <= ps[len(ps)-1] {
+					p = ps[len(ps)-1] + 1
+				}
+			case 3:
+				if p < 64*4000 { // keeps the model's quadratic walk affordable
+					p += 64 * g.R.Range(100, 2000)
+				} else {
+					p += 64
+				}
+			default:
+				p += g.R.Range(1, 400)
+			}
+		}
+		opt := L()
+		last := 0
+		if len(ps) > 0 {
+			last = ps[len(ps)-1]
+		}
+		switch g.R.Intn(5) {
+		case 0:
+			opt = L(Int(last + 1 + g.R.Pick(0, 1, 63, 64, 65, 1000)))
+		case 1:
+			opt = L(Int(g.R.Pick(-5, 0, 1, last, last/2)))
+		}
+		g.Stat("of-walk")
+		key := ""
+		if len(ps) > 0 {
+			key = fmt.Sprintf("OW/c%d/opt%v/%s", bits.Len(uint(len(ps))), opt != "[]", c13wCross(0, last))
+		}
+		g.Do("bitmap.Of/walk", L(Ints(ps), opt), key)
 	}
 }
